@@ -1,5 +1,5 @@
 rc_target("c10_cbor", flavour="asan-fco")
-plan("C10", [T("c10_cbor", 16000, 100000)], min_nt=9000,
+plan("C10", [T("c10_cbor", 16000, 100000), TT(GCC("c10_cbor"), 8000)], min_nt=9000,
      rule="encoder call lists, decoded element by element and (well-formed nested variant) skipped item by item, every encoding "
           "also parsed by an independent RFC 8949 reader in the harness",
      technique="property-based round-trip testing (rapidcheck) with an independent reference reader: written sequence == reference "
